@@ -61,7 +61,7 @@ def sweep_serial(sw, r, tier):
             continue
         # %p is a 3-digit field and the asset %b an 8-bit field: like %p in C01, they belong to the domain only while the value fits
         dirs = [d for d in S_DIRS if (d != "%p" or n < 1000) and (d != "%b" or n < 256)]
-        for d in dirs:
+        for d in S_DIRS:   # rendering is compared for every directive and every value, whether or not the field can hold it
             sw.note(["serial", n, d], "serial-render")
             ra, rc = outcome(lambda: a.format(d)), outcome(lambda: c.format(d))
             sw.check(ra == rc, "the renderings differ", {**case, "clause": "serial-render", "fmt": d}, rc, ra)
